@@ -54,8 +54,11 @@ class Exec:
         self.reqs = ["init 32768 %d %d 3 0" % (peer_win, peer_max)]
         self.impl = [self.rig.view()]
         self.racers = {}          # thread -> data token it held when EOF was decided
+        self.adj_holders = {}     # thread -> WINDOW_ADJUST token it held when the channel was closed
         self.pclose_done = False
         self.post_growth = None
+        # unread data above the ack threshold (in_window//10 = 3276) sits in the buffer when the closes happen
+        self.do("feed 4000")
 
     def unfinished(self):
         out = []
@@ -67,12 +70,16 @@ class Exec:
     def do(self, op):
         c = self.rig.chan
         before = c.eof_sent
+        closed_before = c.closed
+        adj_now = {t: lt.info for t, lt in enumerate(self.rig.threads) if lt.state == "hold" and lt.info[0] not in "dx"}
         was_linked = self.rig.linked
         holders = {t: lt.info for t, lt in enumerate(self.rig.threads)
                    if lt.state == "hold" and lt.info[0] in "dx"}
         self.rig.do(op)
         if not before and c.eof_sent:
             self.racers = holders
+        if not closed_before and c.closed:
+            self.adj_holders = adj_now
         if op.startswith("pclose") and self.rig.linked is False and not was_linked:
             pass    # the transport no longer dispatches to a channel it has dropped (transport loss before)
         elif op.startswith("pclose"):
@@ -119,6 +126,14 @@ class Exec:
                 return
         n0 = len(self.rig.wire)
         results = []
+        # reading what is left in the buffers of the dead channel must not produce a WINDOW_ADJUST
+        for err in (0, 1):
+            if len(c.in_stderr_buffer if err else c.in_buffer) > 0:
+                self.do("recv 2 100000 %d" % err)
+                guard = 0
+                while self.rig.threads[2].state != "idle" and guard < 5:
+                    self.advance(2)
+                    guard += 1
         for op in ("send 0 3 0", "send 1 3 1", "sendall 0 10 0"):
             self.do(op)
             t = int(op.split()[1])
@@ -158,6 +173,16 @@ def judge(ctx, ex, case):
                 ctx.dist("known-race-reproduced")
             else:
                 ctx.fail("data-after-close:not-reserved-before", case, "wire %r thread %d %s" % (wire, t, tok))
+    closed_out = False
+    for tok, t in zip(wire, by):
+        if tok == "C":
+            closed_out = True
+        elif closed_out and tok[0] not in "dx":
+            if ex.adj_holders.get(t) == tok:
+                continue        # decided before the close (an ack computed, an EOF decided), written by its thread after
+            ctx.fail("message-after-close:" + ("window-adjust" if tok[0] == "a" else tok), case,
+                     "wire %r: thread %d wrote %s after the channel's CLOSE" % (wire, t, tok))
+            break
     if ex.post_growth is not None:
         grew, results = ex.post_growth
         if grew:
@@ -167,6 +192,9 @@ def judge(ctx, ex, case):
     excs = [lt.result for lt in ex.rig.threads if lt.result.startswith(("EXC:", "E:"))]
     for e in excs[:1]:
         ctx.fail("unexpected-exception:" + e.split(":")[1], case, e)
+    pp = ex.rig.protocol_problem()
+    if pp is not None:
+        ctx.fail(pp[0], case, pp[1])
 
 
 def run_order(progs, order, peer_win):
@@ -241,8 +269,7 @@ def run(ctx):
     import paramiko.channel as chmod
     from pv import lib_chanlock
     sites, notifies = lib_chanlock.channel_tables(chmod.Channel)
-    ctx.write_generated("ChanLock", lib_chanlock.lean_tables(sites, notifies,
-                                                             lib_chanlock.window_accesses(chmod.Channel)))
+    ctx.write_generated("ChanLock", lib_chanlock.lean_tables_for(chmod.Channel))
     ctx.extra["decision_sites"] = ["%s:%s:%s" % (x["caller"], x["target"], "locked" if x["eff"] else "UNLOCKED")
                                    for x in sites if x["caller"] != "__init__"]
     ctx.build(extra_modules=["PV.Model.ChanDriver"])
@@ -319,6 +346,7 @@ def run(ctx):
         reqs, impl = ["init %d %d %d %d 0" % (in_win, peer_win, peer_max, nthr)], [rig.view()]
         ex = Exec.__new__(Exec)
         ex.rig, ex.reqs, ex.impl, ex.racers, ex.pclose_done, ex.post_growth = rig, reqs, impl, {}, False, None
+        ex.adj_holders = {}
         ex.progs = [[] for _ in range(nthr)]
         try:
             for op in c19.gen_schedule(rng, rig, nthr, rng.randrange(10, 40), in_win, peer_max, allow_close=True,
